@@ -247,8 +247,10 @@ def run(ctx):
                 # every string encoding, alone and combined with random other choices
                 directed = ["vlen-utf8", "vlen-ascii", "fixed-utf8-nul", "fixed-ascii-nul", "fixed-utf8-space"][i % 5]
                 md = {"d": [["label", {"s": "Größe 5µm"}], ["多", {"s": "键盘 😀"}], ["plain", {"s": "ascii only"}]]}
-                g = {"type": "NIRGraph", "meta": md, "edges": [["é", "é"]],
-                     "nodes": [["é", {"type": "Scale", "kwargs": [["scale", gen.arr(rng, [2], "<f8")], ["metadata", md]]}]]}
+                g = {"type": "NIRGraph", "meta": md, "edges": [["é", "é"], ["é", "relay "], ["relay ", "x"], ["x", "x"]],
+                     "nodes": [["é", {"type": "Scale", "kwargs": [["scale", gen.arr(rng, [2], "<f8")], ["metadata", md]]}],
+                               ["relay ", {"type": "Scale", "kwargs": [["scale", gen.arr(rng, [2], "<f8")]]}],
+                               ["x", {"type": "Scale", "kwargs": [["scale", gen.arr(rng, [2], "<f8")]]}]]}
             try:
                 ref = impl_construct(g)
                 bio = io.BytesIO(); nir.write(bio, ref)      # in the domain of C01 only if write accepts it
@@ -257,6 +259,8 @@ def run(ctx):
             fixed = dict([singles[i % len(singles)]]) if i % 2 == 0 else {}
             if directed:
                 fixed = {"str": directed}
+                if i >= 5:
+                    fixed["edges"] = "fixed"          # the edge list as fixed-width strings (names of unequal length: padded)
             enc = Enc(rng, fixed)
             path = os.path.join(tmpdir, "enc.nir")
             case = {"op": "encoded", "graph": g, "fixed": fixed, "seed_index": i}
